@@ -288,6 +288,8 @@ def real_process_run(spec, cores, H, seed=5):
             pass
         except RealTimeout:
             log.append(("deadlock", "the run with real OS processes did not finish within 120 s", ()))
+        except Exception as e:  # e.g. EOFError because a worker process died
+            log.append(("exception", "the run with real OS processes raised %r" % (e,), ()))
     finally:
         signal.alarm(0)
         signal.signal(signal.SIGALRM, old)
